@@ -160,3 +160,10 @@ def replay(ctx, path):
     d = compare_content(rp["expected_content"], r)
     print("replay: %s" % (d or "property holds on this input"))
     return 1 if d else 0
+
+
+def corpus(ctx, entry):
+    rp = entry["replay"]
+    model = ctx.get_model() if ctx.build_ok else None
+    dis, vio = check_file(ctx, model, ctx.nptdms(), bytes.fromhex(rp["file"]), rp.get("expected_content"), "corpus")
+    return ([dis] if dis else []), ([vio] if vio else [])
